@@ -23,9 +23,9 @@ def first_diff_line(a, b):
     return min(len(la), len(lb)), "<end>" if len(la) <= len(lb) else la[len(lb)], "<end>" if len(lb) <= len(la) else lb[len(la)]
 
 
-_CODE_REPR = [re.compile(r"<Code\w* code object (\S+) at 0x\?, file (.*?)>(?:, line (\d+))?"),
-              re.compile(r"<code object (\S+) at 0x\?, file \"(.*?)\", line (\d+)>"),
-              re.compile(r"<code\d* object (\S+) at 0x\?, file \"(.*?)\", line (\d+)>")]
+_CODE_REPR = [re.compile(r"<Code\w* code object (.+?) at 0x\?, file (.*?)>(?:, line (\d+))?"),
+              re.compile(r"<code object (.+?) at 0x\?, file \"(.*?)\", line (\d+)>"),
+              re.compile(r"<code\d* object (.+?) at 0x\?, file \"(.*?)\", line (\d+)>")]
 
 
 def norm_code_repr(s):
@@ -96,8 +96,11 @@ def run(tier, scratch, t0, replay=None):
     for p in corp:
         vtag = os.path.basename(os.path.dirname(p)).replace("bytecode_", "")
         items.append({"pyc": p, "label": "corpus/" + vtag + "/" + os.path.basename(p), "vtag": vtag})
-    batches = D.build_batches(scratch, hosts, tier, "C07", n_stdlib=3 if quick else 200, n_gen=5 if quick else 120, batch=40,
-                              with_corpus=False, gen_snippets=3 if quick else None)
+    batches = D.build_batches(scratch, hosts, tier, "C07", n_stdlib=3 if quick else 200, n_gen=4 if quick else 160, batch=40,
+                              with_corpus=False, gen_snippets=3 if quick else None,
+                              focus=["frozenset", "shared_consts", "FLAG_REF", "backward_lines", "line_gaps", "int", "text", "closure"],
+                              must_templates=["t_long_loop", "t_shared_frozenset", "t_shared_big_tuple", "t_backward_lines", "t_line_gaps",
+                                              "t_strings", "t_floats", "t_closure", "t_try_nest"])
 
     def compile_batch(b):
         tf, err = K.run_truth(b["v"], "compile", {"items": b["items"], "sections": [], "mode": "compile"}, b["workdir"], b["tag"])
